@@ -1184,7 +1184,7 @@ def rule_grammar_semantics(ctx, ix, printed, printed_formats):
         "float": safe(float),
     }
     try:
-        g = Grammar(ix, P_MOD, "TensorExpressionParsers", cons)
+        g = Grammar(ix, P_MOD, "TensorExpressionParsers", cons, extra_globals={k: v for k, v in module_env(ix, P_MOD, cons).items() if k not in cons and k != "re"})
     except Uninterpretable as ex:
         ctx.instance("C12.grammar-semantics")
         ctx.fail("C12.grammar-semantics", "expression/_parser.py:TensorExpressionParsers", f"grammar class not interpretable: {ex}")
@@ -1280,7 +1280,7 @@ def rule_grammar_semantics(ctx, ix, printed, printed_formats):
         "int": safe(int),
     }
     try:
-        fg = Grammar(ix, FP_MOD, "FormatParsers", fcons)
+        fg = Grammar(ix, FP_MOD, "FormatParsers", fcons, extra_globals={k: v for k, v in module_env(ix, FP_MOD, fcons).items() if k not in fcons and k != "re"})
     except Uninterpretable as ex:
         ctx.instance("C12.grammar-semantics")
         ctx.fail("C12.grammar-semantics", "format/_parser.py:FormatParsers", f"grammar class not interpretable: {ex}")
